@@ -251,7 +251,7 @@ func init() {
 				for _, vn := range ok {
 					ast = append(ast, fmt.Sprint(!variants[vn].NoAST))
 				}
-				return []EntrySpec{{Name: "C13", Params: "n int", Body: fmt.Sprintf("hl.C13(G, %s, %s, []bool{%s}, n, NSW)", names, ctors, strings.Join(ast, ", "))}}
+				return []EntrySpec{{Name: "C13", Params: "n int", Body: fmt.Sprintf("hl.C13(G, %s, %s, []bool{%s}, HASACT, n, NSW)", names, ctors, strings.Join(ast, ", "))}}
 			},
 			Jobs:              func(gg *GenGrammar) []*Job { return lenJobs("C13", N) },
 			BrokenIsViolation: false, ValidateEveryGrammar: validateEvery(c), Cfg: parserCfg(c),
